@@ -208,7 +208,10 @@ def explore_history(ck, hi, hist, cfg, tier, rng, trace, counters):
             cl_keep = {i + 1: v for i, v in enumerate(d["keep"])}
             elog.materialise(cdir, cl_keep, d["dkeep"])
             st = cl.statuses(entries, nops, upto=d["k"] + 1)
-            judge("power", d["k"], st, cl.recover(cdir, cfg), {"keep": d["keep"], "dkeep": d["dkeep"], "at_end": d["k"] >= N})
+            o1 = cl.recover(cdir, cfg)
+            judge("power", d["k"], st, o1, {"keep": d["keep"], "dkeep": d["dkeep"], "at_end": d["k"] >= N})
+            if o1["outcome"] == "ok" and rng.random() < 0.2:
+                judge("power", d["k"], st, cl.recover(cdir, cfg), {"keep": d["keep"], "dkeep": d["dkeep"], "at_end": d["k"] >= N, "again": 2})
         counters["power_descriptors"] = counters.get("power_descriptors", 0) + len(descs)
     # ---- torn prefixes of a write on top of the kill view before it
     writes = [i + 1 for i, a in enumerate(elog.abstract) if a["op"] == "write"]
@@ -226,7 +229,12 @@ def explore_history(ck, hi, hist, cfg, tier, rng, trace, counters):
         for nb in tear_offsets(len(op[2])):
             elog.materialise(cdir, keep, dcount, tear=(ino, nb))
             st = cl.statuses(entries, nops, upto=k)
-            judge("torn", k, st, cl.recover(cdir, cfg), {"tear": nb, "of": len(op[2])})
+            o1 = cl.recover(cdir, cfg)
+            judge("torn", k, st, o1, {"tear": nb, "of": len(op[2])})
+            if o1["outcome"] == "ok":
+                # the start-up after a start-up that met a torn tail must succeed too, with the same content
+                # (the segment with the torn tail is no longer the last one then)
+                judge("torn", k, st, cl.recover(cdir, cfg), {"tear": nb, "of": len(op[2]), "again": 2})
     shutil.rmtree(sd, ignore_errors=True)
     return N
 
